@@ -124,9 +124,12 @@ class LiteDRAMAXI2NativeW(Module):
         w_buffer_send = Signal()
         self.comb += [
             # Only send write data after a matching write command has been
-            # accepted. This keeps delayed native wdata_ready pulses from
-            # consuming data ahead of the command stream.
-            w_buffer_send.eq((w_buffer_level != 0) | w_buffer_queue),
+            # accepted (at least one cycle after it: the ID of a burst is written
+            # to id_buffer with its first command and must be readable when the
+            # last data beat leaves, also with a native side whose wdata.ready
+            # is high before/with the command). This keeps delayed native
+            # wdata_ready pulses from consuming data ahead of the command stream.
+            w_buffer_send.eq(w_buffer_level != 0),
             If(axi_w_connect, axi.w.connect(w_buffer.sink)),
             port.wdata.valid.eq(w_buffer.source.valid & w_buffer_send),
             port.wdata.data.eq(w_buffer.source.data),
